@@ -267,6 +267,51 @@ class Run:
             self.cov["samples"].append(s)
         return {"cases": cases, "impl": impl, "model": model, "mismatches": mism, "meta": meta, "dir": d}
 
+    def run_witnesses(self, props=None):
+        """Re-runs the committed witnesses of this property (corpus/<Cnn>/*.json) on the working tree first.
+        A failing witness of a `finding:` entry prints KNOWN-FINDING; a failing witness of a `fixed:` entry
+        (or of no entry) is a violation with the witness as the replay. Returns the set of active finding ids."""
+        import glob
+        props = props or [self.prop]
+        pats = [VERIF + "/corpus/%s/*.json" % p for p in props]
+        if not any(glob.glob(p) for p in pats):
+            return set()
+        h = self.build_harness()
+        d = tempfile.mkdtemp(prefix="witness-", dir=self.tmp)
+        rc, log = sh([h, "witness", "-out", d] + pats, timeout=1800)
+        if rc != 0:
+            raise FamilyError("witness", log[-3000:])
+        cases = open(d + "/cases.txt").read().split("\n")
+        impl = open(d + "/impl.txt").read().split("\n")
+        orc = open(d + "/oracle.txt").read().split("\n")
+        kf = {k["id"]: k for k in known_findings()}
+        failing, seen = {}, set()
+        for i, c in enumerate(cases):
+            if not c.startswith("# witness "):
+                continue
+            wid = c.split()[2]
+            seen.add(wid)
+            if i < len(orc) and orc[i].strip():
+                failing.setdefault(wid, []).append((c, impl[i], orc[i]))
+        active = set()
+        for wid, rows in failing.items():
+            k = kf.get(wid)
+            if k and k["kind"] == "finding":
+                active.add(wid)
+                self.known(wid, k["text"].split(" ", 3)[-1] if k["text"].count(" ") >= 3 else k["text"])
+            else:
+                self.violation("witness-" + wid, {"kind": "property-violated-by-implementation",
+                                                  "what": "committed witness %s fails on the current tree%s" % (wid, " (entry is marked fixed: the defect is back)" if k else ""),
+                                                  "runs": [{"case": c, "implementation": im, "why": o} for (c, im, o) in rows],
+                                                  "witness_files": pats}, True)
+        stale = [w for w in seen if w in kf and kf[w]["kind"] == "finding" and w not in failing]
+        if stale:
+            self.notes.append("stale findings (witness no longer fails): %s" % sorted(stale))
+        self.cov["witnesses"] = {"run": sorted(seen), "failing": sorted(failing), "active_findings": sorted(active)}
+        self.obligations.append(("witnesses: every committed witness of a repaired defect passes (%d witnesses)" % len(seen),
+                                 not [w for w in failing if w not in active], "failing: %s" % sorted(failing)))
+        return active
+
     # ---- results ----
     def replay_path(self, tag):
         d = VERIF + "/replays"
